@@ -85,21 +85,39 @@ def observe(t, sel):
     n = len(t)
     out = {}
     try:
-        got = np.atleast_1d(t.rows.indices[sel])
+        raw = t.rows.indices[sel]
+        got = np.atleast_1d(raw)
         out["indices"] = ("v", [int(i) % n if n else int(i) for i in got])
+        hold(raw)
     except Exception as exc:
         out["indices"] = ("e", type(exc).__name__)
     try:
         m = t.rows.mask[sel]
         out["mask"] = ("v", [int(i) for i in np.where(m)[0]])
+        hold(m)
     except Exception as exc:
         out["mask"] = ("e", type(exc).__name__)
     try:
         sub = t.rows[sel]
         out["rows"] = ("v", [int(x) for x in sub._data["x"]], list(sub._data["name"]))
+        hold(sub._data["x"])
     except Exception as exc:
         out["rows"] = ("e", type(exc).__name__)
+    # results handed out by EARLIER calls must not have changed (two results of one table alive at once)
+    for arr, snap in HELD[:-3]:
+        if not (arr.shape == snap.shape and np.array_equal(arr, snap)):
+            out["aliasing"] = "an array returned by an earlier rows.* call changed from %s to %s after later calls" % (snap.tolist(), arr.tolist())
+            break
+    del HELD[:-6]
     return out
+
+
+HELD = []
+
+
+def hold(arr):
+    if isinstance(arr, np.ndarray):
+        HELD.append((arr, arr.copy()))
 
 
 def compare(desc, names, exp, obs, counters, violations, known, sels_for_kf):
@@ -118,6 +136,8 @@ def compare(desc, names, exp, obs, counters, violations, known, sels_for_kf):
             problems.append("rows[...] gives rows %s, expected %s (table order)" % (obs["rows"][1:2], pos))
         if obs["mask"] != ("v", sorted(set(pos))):
             problems.append("rows.mask gives %s, expected %s" % (obs["mask"][1:], sorted(set(pos))))
+    if obs.get("aliasing"):
+        problems.append(obs["aliasing"])
     if not problems:
         return True
     for nm, s in sels_for_kf:
@@ -133,6 +153,7 @@ def compare(desc, names, exp, obs, counters, violations, known, sels_for_kf):
 
 def run_table(names, alphabet, counters, digests, violations, known, fp, pairs=True, sels=None):
     t = make_table(names)
+    del HELD[:]
     n = len(names)
     cols = {"x": list(t._data["x"]), "v": list(t._data["v"])}
     sels = sels if sels is not None else selectors(names, alphabet)
